@@ -32,6 +32,19 @@ func (d *DiskKV) replayLogs() error {
 			return fmt.Errorf("error decoding entry to mutation at index %d: %w", i, err)
 		}
 		if err := d.handleMutation(mut); err != nil {
+			if i == index && i > 1 {
+				// the last entry is a rejected mutation that was appended but not rolled back
+				// (the process stopped between appendLog and rollbackOne): finish the rollback
+				d.logger.Warn("Rolling back rejected mutation found at the end of the log",
+					zap.Uint64("index", i),
+					zap.Error(err),
+				)
+				if err := d.log.TruncateBack(i - 1); err != nil {
+					return fmt.Errorf("error rolling back rejected mutation at index %d: %w", i, err)
+				}
+				index = i - 1
+				break
+			}
 			return fmt.Errorf("error apply mutation to memory state at index %d: %w", i, err)
 		}
 		entry.Reset()
